@@ -1,5 +1,6 @@
 import NflowsModel.Audit.Tool
 import NflowsModel.Properties.C04
 import NflowsModel.Properties.C04P
+import NflowsModel.Properties.C04X
 
 #audit_namespace Properties.C04
